@@ -66,6 +66,34 @@ func (vc *VC) Run() {
 			}
 		}
 	}
+	// global invariants of the package
+	for _, gi := range vc.prog.cs.GlobalInvs {
+		if gi.Pkg != vc.pkg.Path() || strings.HasPrefix(fn.Name(), "init") {
+			continue
+		}
+		root := fn
+		for root.Parent() != nil {
+			root = root.Parent()
+		}
+		if strings.HasPrefix(root.Name(), "init") {
+			continue
+		}
+		env := vc.newEnv(st, st)
+		vc.globalsRead = map[*ssa.Global]bool{}
+		t := vc.trBool(gi.E, env)
+		ok := true
+		for g := range vc.globalsRead {
+			if !vc.prog.onlyWrittenInInit(g) {
+				vc.unsupportedf("globalinv %s mentions %s which is written outside init functions", gi.Name, g.Name())
+				ok = false
+			}
+		}
+		vc.globalsRead = nil
+		if ok {
+			vc.assumeNote("global invariant " + gi.Name + " (proved at the return of " + gi.Init + "; its variables are written only by init functions: checked by a whole-module scan) is not relied upon during package initialisation")
+			vc.addFact("assume", t)
+		}
+	}
 	vc.registerKeys()
 	vc.reach[0] = "true"
 	order := vc.rpo()
@@ -623,7 +651,18 @@ func (vc *VC) wiringNonNil(p ssa.Value, depth int) bool {
 			case *ssa.FieldAddr, *ssa.FreeVar, *ssa.Global:
 				return true
 			case *ssa.Alloc:
-				return false
+				// a local variable cell (captured by a closure): non-nil if every value stored into it is
+				al := x.X.(*ssa.Alloc)
+				n := 0
+				for _, r := range *al.Referrers() {
+					if st, ok := r.(*ssa.Store); ok && st.Addr == ssa.Value(al) {
+						n++
+						if !vc.wiringNonNil(st.Val, depth+1) {
+							return false
+						}
+					}
+				}
+				return n > 0
 			}
 			return false
 		}
@@ -1173,6 +1212,11 @@ func (vc *VC) ret(x *ssa.Return, st *State) {
 			label = fmt.Sprintf("ensures%d", i)
 		}
 		vc.oblige("post", label, vc.trBool(c.E, env), x.Pos())
+	}
+	for _, gi := range vc.prog.cs.GlobalInvs {
+		if gi.Pkg == vc.pkg.Path() && gi.Init == vc.name {
+			vc.oblige("post", "globalinv:"+gi.Name, vc.trBool(gi.E, env), x.Pos())
+		}
 	}
 	vc.frameCheck(st, x.Pos())
 	o := vc.oblige("cover", "return-reachable", "false", x.Pos())
